@@ -1,9 +1,166 @@
-(* C07 - Concentrated pool bookkeeping always agrees with its positions.  Theorem file. *)
+(* C07 - Concentrated pool bookkeeping always agrees with its positions.
+   Theorem file: every theorem is closed by lemmas of C07/{LP,Swap,Proofs}.v.  All statements are over ALL finite
+   histories [ops] of the operations of CL/CLStep.v (create / withdraw partial or full / add-to-position / transfer /
+   swap exact-in / swap exact-out in both directions / time advance; arbitrary arguments; successful or failing)
+   on a pool with any authorised tick spacing and spread factor (the lists are the generated Gen/CL_consts.v names,
+   re-read from /repo on every run), any accounts and balances.  "After every operation" = for every [ops], since
+   [run s0 ops] ranges over every prefix of every history.  The swap cases (crossing initialised ticks upwards and
+   downwards, landing inside a bucket, no-progress steps, liquidity gaps) are proved in full: C07/Swap.v. *)
 From Coq Require Import ZArith List Bool.
 Import ListNotations.
-From Osmo Require Import CL.CLPool CL.CLStep C07.Proofs.
+From Osmo Require Import Base.DecModel Gen.CL_consts CL.TickMath CL.CLPool CL.CLSwap CL.CLStep.
+From Osmo Require Import C07.Base C07.LP C07.Proofs.
 Open Scope Z_scope.
 
+Definition reach (sp spf sc t0 : Z) (users : list (Z * Z)) (ops : list op) : state :=
+  run (init_state sp spf sc users t0) ops.
+
+(* the inductive invariant holds after every history *)
+Theorem C07_invariant : forall sp spf sc t0 users ops,
+  In sp cl_AuthorizedTickSpacing -> In spf cl_AuthorizedSpreadFactors -> Inv (reach sp spf sc t0 users ops).
+Proof. intros. apply run_inv, init_inv; [apply authorised_spacing_pos|apply authorised_spread_bounds]; assumption. Qed.
+Print Assumptions C07_invariant.
+
+(* active liquidity = total liquidity of the positions whose range contains the current tick *)
+Theorem C07_active_liq_eq : forall sp spf sc t0 users ops,
+  In sp cl_AuthorizedTickSpacing -> In spf cl_AuthorizedSpreadFactors ->
+  let s := reach sp spf sc t0 users ops in
+  p_liq (s_pool s) = sum_liq (fun lo hi => (lo <=? p_tick (s_pool s)) && (p_tick (s_pool s) <? hi)) (s_pos s).
+Proof. intros sp spf sc t0 users ops H1 H2. apply (inv_active _ (C07_invariant sp spf sc t0 users ops H1 H2)). Qed.
+Print Assumptions C07_active_liq_eq.
+
+(* stored ticks are exactly the boundaries in use, each with gross = sum of L over the positions using it and
+   net = sum of +L (as lower boundary) and -L (as upper boundary); no tick is stored twice (strictly sorted list) *)
+Theorem C07_tick_sums : forall sp spf sc t0 users ops,
+  In sp cl_AuthorizedTickSpacing -> In spf cl_AuthorizedSpreadFactors ->
+  let s := reach sp spf sc t0 users ops in
+  keys_sorted (s_ticks s) /\
+  forall b, tick_get (s_ticks s) b =
+            if uses b (s_pos s) then Some (mkTick (gross_at b (s_pos s)) (net_at b (s_pos s))) else None.
+Proof.
+  intros sp spf sc t0 users ops H1 H2. pose proof (C07_invariant sp spf sc t0 users ops H1 H2) as I.
+  split; [apply (inv_ticks_sorted _ I)|]. intro b. rewrite (inv_tick_sums _ I).
+  apply tick_expected_uses. apply (pos_ok_liq _ _ _ (inv_pos_ok _ I)).
+Qed.
+Print Assumptions C07_tick_sums.
+
+(* price and tick agree about every multiple b of the pool's tick spacing in the initialisable range:
+   b <= tick -> S(b) <= sqrtP, and tick < b -> sqrtP <= S(b), with S = TickToSqrtPrice *)
+Theorem C07_price_tick_consistent : forall sp spf sc t0 users ops,
+  In sp cl_AuthorizedTickSpacing -> In spf cl_AuthorizedSpreadFactors ->
+  let s := reach sp spf sc t0 users ops in
+  s_pos s <> [] ->
+  0 < p_sqrt (s_pool s) /\
+  forall b sb, Z.rem b sp = 0 -> MinInitializedTick <= b <= MaxTick -> tick_to_sqrt_price b = Some sb ->
+    (b <= p_tick (s_pool s) -> sb <= p_sqrt (s_pool s)) /\ (p_tick (s_pool s) < b -> p_sqrt (s_pool s) <= sb).
+Proof.
+  intros sp spf sc t0 users ops H1 H2 s Hne. pose proof (C07_invariant sp spf sc t0 users ops H1 H2) as I.
+  destruct (inv_price _ I Hne) as [Pos PC]. split; [exact Pos|].
+  unfold price_consistent, price_consistent_at in PC. unfold reach in PC.
+  rewrite run_spacing in PC by (apply init_inv; [apply authorised_spacing_pos|apply authorised_spread_bounds]; assumption).
+  exact PC.
+Qed.
+Print Assumptions C07_price_tick_consistent.
+
+(* ... in particular about every position: below, inside or above its range *)
+Theorem C07_price_agrees_with_every_position : forall sp spf sc t0 users ops,
+  In sp cl_AuthorizedTickSpacing -> In spf cl_AuthorizedSpreadFactors ->
+  let s := reach sp spf sc t0 users ops in
+  forall p sl su, In p (s_pos s) -> tick_to_sqrt_price (ps_lower p) = Some sl -> tick_to_sqrt_price (ps_upper p) = Some su ->
+    (p_tick (s_pool s) < ps_lower p -> p_sqrt (s_pool s) <= sl) /\
+    (ps_lower p <= p_tick (s_pool s) < ps_upper p -> sl <= p_sqrt (s_pool s) <= su) /\
+    (ps_upper p <= p_tick (s_pool s) -> su <= p_sqrt (s_pool s)).
+Proof.
+  intros sp spf sc t0 users ops H1 H2 s p sl su Hp Sl Su. pose proof (C07_invariant sp spf sc t0 users ops H1 H2) as I.
+  assert (Hne : s_pos s <> []) by (intro E; rewrite E in Hp; contradiction).
+  destruct (C07_price_tick_consistent sp spf sc t0 users ops H1 H2 Hne) as [_ PC].
+  pose proof (inv_pos_ok _ I) as POK. rewrite Forall_forall in POK. destruct (POK _ Hp) as [_ [_ V]].
+  unfold reach in V. rewrite run_spacing in V by (apply init_inv; [apply authorised_spacing_pos|apply authorised_spread_bounds]; assumption).
+  simpl in V. destruct (validate_tick_range_spec _ _ _ V) as [_ [Rl [Rh [Bl [Bh _]]]]].
+  destruct (PC _ _ Rl ltac:(split; [apply Bl|apply Z.lt_le_incl, Bl]) Sl) as [A1 A2].
+  destruct (PC _ _ Rh ltac:(split; [apply Z.lt_le_incl, Bh|apply Bh]) Su) as [B1 B2].
+  split; [exact A2|]. split; [|exact B1]. intros [X Y]. split; [apply A1; exact X|apply B2; exact Y].
+Qed.
+Print Assumptions C07_price_agrees_with_every_position.
+
+(* a pool with no positions has no price (and no liquidity and no ticks) *)
+Theorem C07_empty_pool_no_price : forall sp spf sc t0 users ops,
+  In sp cl_AuthorizedTickSpacing -> In spf cl_AuthorizedSpreadFactors ->
+  let s := reach sp spf sc t0 users ops in
+  s_pos s = [] -> p_sqrt (s_pool s) = 0 /\ p_tick (s_pool s) = 0 /\ p_liq (s_pool s) = 0 /\ s_ticks s = [].
+Proof.
+  intros sp spf sc t0 users ops H1 H2. cbv zeta. intro E. pose proof (C07_invariant sp spf sc t0 users ops H1 H2) as I.
+  destruct (inv_empty _ I E) as [A B]. split; [exact A|]. split; [exact B|]. split.
+  - rewrite (inv_active _ I). rewrite E. reflexivity.
+  - apply tick_get_all_none. intro b. rewrite (inv_tick_sums _ I). rewrite E. reflexivity.
+Qed.
+Print Assumptions C07_empty_pool_no_price.
+
+(* one operation: a surviving position keeps its range; its owner changes only by a TransferPositions message that is sent by
+   the current owner and names the position; a position that appears gets a never-used id (next id counter only grows) *)
+Theorem C07_ids_owners_ranges_stable : forall sp spf sc t0 users ops o,
+  In sp cl_AuthorizedTickSpacing -> In spf cl_AuthorizedSpreadFactors ->
+  let s := reach sp spf sc t0 users ops in
+  let s' := fst (step s o) in
+  s_next_id s <= s_next_id s' /\
+  (forall id q q', pos_get (s_pos s) id = Some q -> pos_get (s_pos s') id = Some q' ->
+     ps_lower q' = ps_lower q /\ ps_upper q' = ps_upper q /\
+     (ps_owner q' <> ps_owner q -> exists ids, o = OTransfer (ps_owner q) ids (ps_owner q') /\ In id ids)) /\
+  (forall id q', pos_get (s_pos s) id = None -> pos_get (s_pos s') id = Some q' -> s_next_id s <= id < s_next_id s') /\
+  (forall q, In q (s_pos s) -> 0 < ps_id q < s_next_id s) /\ ids_sorted (s_pos s).
+Proof.
+  intros sp spf sc t0 users ops o H1 H2 s s'. pose proof (C07_invariant sp spf sc t0 users ops H1 H2) as I.
+  destruct (step_inv _ o I) as [_ [A [B C]]]. split; [exact A|]. split; [exact B|]. split; [exact C|]. split.
+  - intros q Hq. pose proof (inv_pos_ok _ I) as POK. rewrite Forall_forall in POK. apply (POK _ Hq).
+  - apply (inv_pos_sorted _ I).
+Qed.
+Print Assumptions C07_ids_owners_ranges_stable.
+
+(* whole histories: an id that has been removed never comes back, and an id keeps its range for as long as it exists *)
+Theorem C07_ids_never_reused : forall sp spf sc t0 users ops ops' id,
+  In sp cl_AuthorizedTickSpacing -> In spf cl_AuthorizedSpreadFactors ->
+  let s := reach sp spf sc t0 users ops in
+  pos_get (s_pos s) id = None -> id < s_next_id s -> pos_get (s_pos (run s ops')) id = None.
+Proof. intros sp spf sc t0 users ops ops' id H1 H2 s A B. apply absent_stays; [apply C07_invariant|..]; assumption. Qed.
+Print Assumptions C07_ids_never_reused.
+
+Theorem C07_ranges_stable_forever : forall sp spf sc t0 users ops ops' id q q',
+  In sp cl_AuthorizedTickSpacing -> In spf cl_AuthorizedSpreadFactors ->
+  let s := reach sp spf sc t0 users ops in
+  pos_get (s_pos s) id = Some q -> pos_get (s_pos (run s ops')) id = Some q' ->
+  ps_lower q' = ps_lower q /\ ps_upper q' = ps_upper q.
+Proof. intros sp spf sc t0 users ops ops' id q q' H1 H2 s A B. eapply ranges_stable_run; [apply C07_invariant|..]; eassumption. Qed.
+Print Assumptions C07_ranges_stable_forever.
+
+(* failed messages leave no trace (baseapp atomicity, part of the model's step) *)
 Theorem C07_failed_step_unchanged : forall s o s', step s o = (s', None) -> s' = s.
 Proof. exact step_failed_unchanged. Qed.
 Print Assumptions C07_failed_step_unchanged.
+
+(* the full statement of the property, as proved *)
+Definition C07_full : Prop := forall sp spf sc t0 users ops,
+  In sp cl_AuthorizedTickSpacing -> In spf cl_AuthorizedSpreadFactors -> Inv (reach sp spf sc t0 users ops).
+Theorem C07_full_proved : C07_full.
+Proof. exact C07_invariant. Qed.
+Print Assumptions C07_full_proved.
+
+(* non-vacuity: a concrete history (spacing 100, spread 0.3 %) with two overlapping positions and a third, disjoint one, a swap that
+   crosses an initialised tick upwards into a liquidity gap and on into the third range, a swap back down across it, a partial and a
+   full withdrawal and a transfer: the operations succeed, the price moves, ticks are created and deleted. *)
+Definition nv_users : list (Z * Z) := [(10 ^ 30, 10 ^ 30); (10 ^ 30, 10 ^ 30); (10 ^ 30, 10 ^ 30)].
+Definition nv_ops : list op :=
+  [ OCreate 0 1000000 1000000 0 0 (-1000) 2000;
+    OCreate 1 500000 500000 0 0 (-500) 500;
+    OCreate 1 500000 0 0 0 3000 5000;
+    OSwapIn 2 false 1700000 1;
+    OSwapOut 2 true 1000000 (10 ^ 20);
+    OWithdraw 0 1 500749875124843813046785138;
+    OTransfer 1 [2] 2;
+    OWithdraw 2 2 2000749968757805641718864737 ].
+Definition nv_state := reach 100 3000000000000000 (10 ^ 45) 1000 nv_users nv_ops.
+Example C07_nonvacuous :
+  In 100 cl_AuthorizedTickSpacing /\ In 3000000000000000 cl_AuthorizedSpreadFactors /\
+  map ps_id (s_pos nv_state) = [1; 3] /\ map fst (s_ticks nv_state) = [-1000; 2000; 3000; 5000] /\
+  p_tick (s_pool (reach 100 3000000000000000 (10 ^ 45) 1000 nv_users (firstn 4 nv_ops))) = 3771 /\
+  p_tick (s_pool nv_state) = 462 /\ p_liq (s_pool nv_state) = 500749875124843813046785139.
+Proof. vm_compute. repeat split; auto 10. Qed.
